@@ -14,7 +14,7 @@ case "$demo_path" in *.go) ;; *) demo_dir="$demo_path"; demo_path="$demo_path/$d
 mkdir -p "$wt/$demo_dir"; cp "$sd/$demo_file" "$wt/$demo_path"
 tags=""; grep -q "go:build verif" "$sd/$demo_file" && tags="-tags verif"
 pkg="./$demo_dir/"
-runpat=$(jq -r .demo_cmd "$sd/meta.json" | grep -oE '\-run [^ ]+' | head -1)
+runpat=$(jq -r .demo_cmd "$sd/meta.json" | grep -oE '\-run [^ ]+' | head -1 | tr -d "'\"")
 run_demo() { (cd "$wt" && timeout 600 go test $tags -vet=off -count=1 -timeout 300s $runpat "$pkg" >/tmp/conf-demo-$$.txt 2>&1; echo $?); }
 without=$(run_demo)
 if ! git -C "$wt" apply "$sd/patch.diff"; then echo "PATCH DOES NOT APPLY to HEAD"; git -C /repo worktree remove --force "$wt"; exit 2; fi
